@@ -33,6 +33,10 @@ def mk(cls, dt, refrac_t, B=2, n=3):
     raise ValueError(cls)
 
 
+# configured reset voltage of the classes with a constant reset (see mk)
+RESET = {"LIF": -65.0, "GLIF1": -65.0, "ALIF": -65.0, "ALIF-": -65.0, "QIF": -62.0, "Izhikevich": -62.0, "EIF": -62.0, "AdEx": -62.0}
+
+
 def run(cls, dt, refrac_t, lock, steps, seed):
     torch.manual_seed(seed)
     n = mk(cls, dt, refrac_t)
@@ -46,6 +50,9 @@ def run(cls, dt, refrac_t, lock, steps, seed):
         x = torch.rand(2, 3) * 60.0 - 10.0
         v0 = n.voltage.clone()
         s = n(x, refrac_lock=lock)
+        rv = RESET.get(cls)
+        if rv is not None and (s & ((n.voltage - rv).abs() > 1e-5)).any():
+            return {"what": "C03/voltage_after_spike_is_not_the_configured_reset", "input": dict(inp, step=t), "expected": rv, "actual": n.voltage[s].flatten().tolist()[:4]}
         if (n.refrac < 0).any():
             return {"what": "C03/refrac_negative", "input": dict(inp, step=t), "expected": ">=0", "actual": n.refrac.min().item()}
         inwin = (t - last) < window
